@@ -19,10 +19,10 @@ LO, HI = 0.2, 2e4
 
 Q_DT = (1e-9, 0.005, 0.01, 1.0)
 Q_RATIO = (0.2, 0.5, 1, 2, 5.9, 6, 10, 20, 100, 1000, 2000, 5000, 2e4)
-Q_XI = (0.0, 0.01, 0.05, 0.2, 0.5, 0.9, 0.99)
+Q_XI = (0.0, 0.01, 0.05, 0.2, 0.5, 0.9, 0.99, 0.9999)
 T_DT = (1e-9, 0.005, 0.01, 0.02, 0.25, 1.0)
 T_RATIO = (0.2, 0.21, 0.5, 1, 2, 3, 5.9, 6, 10, 20, 50, 100, 1000, 2000, 5000, 1e4, 1.5e4, 2e4)
-T_XI = (0.0, 1e-4, 0.01, 0.05, 0.2, 0.5, 0.9, 0.99, 0.999)
+T_XI = (0.0, 1e-4, 0.01, 0.05, 0.2, 0.5, 0.9, 0.99, 0.999, 0.9995, 0.999999)
 
 
 def long_record(name, n):
